@@ -73,7 +73,7 @@ def dispatch(vm, m, callee, args):
         if n == 'mul_add': return ret(m, A.fma(a[0], a[1], a[2]))
         if n == 'sin_cos': return ret(m, Struct((A.call1('sin', a[0]), A.call1('cos', a[0]))))
         if n == 'clamp':
-            return ret(m, A.minf(A.maxf(a[0], a[1]), a[2]))
+            return ret(m, A.clampf(a[0], a[1], a[2]))
         if n == 'to_bits' or n == 'from_bits': raise Unmodelled(c)
         if n == 'signum': raise Unmodelled(c)
         raise Unmodelled('f64 method ' + n)
